@@ -77,7 +77,7 @@ def gen(rng):
     mx = 1.0
     mn = 0.2 if step != 0.125 else 0.25
     types_present = ["A"] + (["B"] if (s["nB"] or s["nD"]) else [])
-    pairs = [("A", "A")] + ([("A", "B")] if "B" in types_present and rng.random() < 0.7 else []) + ([("B", "B")] if "B" in types_present and rng.random() < 0.4 else [])
+    pairs = [("A", "A")] + ([("A", "B")] if "B" in types_present and (s["nD"] or rng.random() < 0.7) else []) + ([("B", "B")] if "B" in types_present and rng.random() < 0.4 else [])
     for (t1, t2) in pairs:
         xs = grid(mn, mx, step)
         fs = [round(rng.uniform(-50, 120) * (1 - k / len(xs)), 3) for k in range(len(xs))]
